@@ -227,6 +227,23 @@ func init() {
 				"state.updateAuthCookieAuthlevel": {lean: "ext.upgradeResult", ret: []string{"string", "error"}, args: []int{2, 3}, effect: "KM.GoTypes.BootEffect.upgrade"},
 				"state.writeFailureResponse":      {lean: "()", ret: []string{}, args: []int{2}, effect: "KM.GoTypes.BootEffect.fail"}},
 			retLean: "Unit × List KM.GoTypes.BootEffect"},
+		// C05: internalTOTPAuthHandler up to the response (block): validate, then raise
+		glTarget{pkg: "cmd/keymasterd", name: "totpAuthCore", group: "Boot", natInts: true,
+			in: "internalTOTPAuthHandler", blockFrom: "valid, err := state.validateUserTOTP(authUser, otpValue, time.Now())",
+			blockUpto: "returnAcceptType := getPreferredAcceptType(r)", blockReach: "KM.GoTypes.BootEffect.reached",
+			binders:   "(ext : KM.GoTypes.TotpAuthExt) (authUser : List Char) (currentAuthLevel : Nat) (otpValue : Int)",
+			traceLean: "KM.GoTypes.BootEffect",
+			paths: map[string][2]string{
+				"authUser":                       {"authUser", "string"},
+				"currentAuthLevel":               {"currentAuthLevel", "int"},
+				"otpValue":                       {"otpValue", "int"},
+				"http.StatusInternalServerError": {"(500 : Nat)", "int"},
+				"http.StatusUnauthorized":        {"(401 : Nat)", "int"}},
+			externs: map[string]glExtern{
+				"state.validateUserTOTP":          {lean: "ext.validate", ret: []string{"bool", "error"}, args: []int{0, 1}},
+				"state.updateAuthCookieAuthlevel": {lean: "ext.upgradeResult", ret: []string{"string", "error"}, args: []int{2, 3}, effect: "KM.GoTypes.BootEffect.upgrade"},
+				"state.writeFailureResponse":      {lean: "()", ret: []string{}, args: []int{2}, effect: "KM.GoTypes.BootEffect.fail"}},
+			retLean: "Unit × List KM.GoTypes.BootEffect"},
 		// C09: unsealCA — the whole injection step under the mutex
 		glTarget{pkg: "cmd/keymasterd", name: "unsealCA", group: "Seal",
 			binders:   "(ext : KM.GoTypes.SealExt) (signerSet : Bool) (hasEdFile : Bool)",
